@@ -20,3 +20,4 @@ import TLX.Props.Translated.Reasm2
 import TLX.Props.Translated.KeySched
 import TLX.Props.Translated.Builders
 import TLX.Props.Translated.Decrypt
+import TLX.Props.Translated.QuicTls
